@@ -65,6 +65,20 @@ def crowded_jobs(cfgs):
                             "CoulombCellBounding": {"number_event_handlers": 60},
                             "CoulombNearby": {"number_event_handlers": 60},
                             "CoulombSurplus": {"number_event_handlers": 60}}))
+        if c.endswith("coulomb_atoms/cell_veto.ini"):
+            # 24 atoms in 4 x 3 x 3 cells with occupant limit 1: surplus units and surplus-tagger events are frequent
+            out.append((c, {"RandomInputHandler": {"number_of_root_nodes": 24},
+                            "CuboidPeriodicCells": {"cells_per_side": "4, 3, 3"},
+                            "CoulombNearby": {"number_event_handlers": 40},
+                            "CoulombSurplus": {"number_event_handlers": 40}}))
+            # the same at high temperature: few interaction events, so that cell-boundary events follow directly on
+            # every kind of event (a missing re-creation of the cell-boundary event lets the active unit leave its cell)
+            for beta in ("0.3", "0.05"):
+                out.append((c, {"RandomInputHandler": {"number_of_root_nodes": 24},
+                                "CuboidPeriodicCells": {"cells_per_side": "4, 3, 3"},
+                                "HypercubicSetting": {"beta": beta},
+                                "CoulombNearby": {"number_event_handlers": 40},
+                                "CoulombSurplus": {"number_event_handlers": 40}}))
         if c.endswith("dipoles/dipole_motion.ini"):
             ov = {"RandomInputHandler": {"number_of_root_nodes": 3}}
             for sec in ("HarmonicLeaf", "CoulombLeaf", "RepulsiveLeaf", "CoulombRoot", "RepulsiveRoot"):
